@@ -90,13 +90,17 @@ Definition p_event (ws : list string) : option event :=
   | _ => option_map EB (p_bevent ws)
   end.
 
-(* CFG allow usage blur exp period t0 *)
+(* CFG allow usage blur exp period t0 motd version error *)
 Definition p_cfg (ws : list string) : option (config * Z) :=
   match ws with
-  | ["CFG"; al; us; bl; ex; pe; t0] =>
+  | ["CFG"; al; us; bl; ex; pe; t0; mo; ve; er] =>
       match p_bool al, p_bool us, p_oZ bl, parse_Z ex, parse_Z pe, parse_Z t0 with
       | Some al, Some us, Some bl, Some ex, Some pe, Some t0 =>
-          Some (mkCfg al us bl ex pe, t0)
+          match p_ostr mo, p_ostr ve, p_ostr er with
+          | Some mo, Some ve, Some er =>
+              Some (mkCfg al us bl ex pe (mkWelcome mo ve er), t0)
+          | _, _, _ => None
+          end
       | _, _, _, _, _, _ => None
       end
   | _ => None
@@ -148,12 +152,37 @@ Definition r_errk (k : err_kind) : string :=
   | ErrOther => """other"""
   end.
 
+Definition r_type (t : option mtype) : string :=
+  match t with
+  | None => "null"
+  | Some TPing => """ping"""
+  | Some TBind => """bind"""
+  | Some TList => """list"""
+  | Some TAllocate => """allocate"""
+  | Some TClaim => """claim"""
+  | Some TRelease => """release"""
+  | Some TOpen => """open"""
+  | Some TAdd => """add"""
+  | Some TClose => """close"""
+  | Some TUnknown => """unknown"""
+  end.
+
+(* a command as the JSON array of its 11 fields, in record order *)
+Definition r_cmd (m : command) : string :=
+  r_tuple [r_type (m_type m); r_os (m_id m); r_os (m_appid m); r_os (m_side m);
+           r_os (m_nameplate m); r_os (m_mailbox m); r_os (m_phase m); r_os (m_body m);
+           r_os (m_mood m); r_oZ (m_ping m);
+           match m_client_version m with
+           | None => "null"
+           | Some (a, b) => r_tuple [r_os a; r_os b]
+           end].
+
 Definition r_frame (f : frame) : list string :=
   match f with
-  | FWelcome => ["""welcome"""]
+  | FWelcome w => ["""welcome"""; r_os (w_motd w); r_os (w_version w); r_os (w_error w)]
   | FAck id => ["""ack"""; r_os id]
   | FPong v => ["""pong"""; r_Z v]
-  | FError k => ["""error"""; r_errk k]
+  | FError k orig => ["""error"""; r_errk k; r_cmd orig]
   | FNameplates l => ["""nameplates"""; r_list r_s l]
   | FAllocated n => ["""allocated"""; r_s n]
   | FClaimed m => ["""claimed"""; r_s m]
@@ -167,7 +196,7 @@ Definition r_log_entry (l : log_entry) : string :=
   match l with
   | LCommitChan _ => "[""C""]"
   | LCommitUsage _ => "[""U""]"
-  | LFrame c f clean => r_tuple ("""F""" :: r_nat c :: r_b clean :: r_frame f)
+  | LFrame c f clean tx => r_tuple ("""F""" :: r_nat c :: r_b clean :: r_frame f ++ [r_Z tx])
   end.
 
 Definition r_exn (e : exn) : string :=
